@@ -57,6 +57,7 @@ func raceFiles(v int) map[string]string {
 		"/edit.jet":  edit,
 		"/deep.jet":  `{{ .In.A }}/{{ .In.B }}/{{ .Name }}/{{ len(.In.C) }}`,
 		"/incl2.jet": `{{include "/edit.jet"}}|{{include "/inc.jet" 5}}`,
+		"/keep.jet":  `{{w := "none"}}{{u := 0}}{{range k, v := .M}}{{if v == .A}}{{w = k}}{{u = v}}{{end}}{{end}}{{.A}}:[{{w}}={{u}}]{{include "/inc.jet" 1}}{{range k2, v2 := .M}}{{end}}{{range .C}}{{.}};{{end}}{{range .M}}{{end}}[{{w}}={{u}}]`,
 		"/rng.jet":   `{{range .Z}}x{{else}}e{{end}}{{range i, x := .C}}{{range .C}}{{.}}{{end}};{{range .Z}}{{else}}{{range k, v := .M}}{{k}}{{v}}{{end}}{{end}}{{end}}{{range .M}}{{.}}{{else}}E{{end}}`,
 	}
 }
@@ -149,7 +150,23 @@ func init() {
 				}()
 				r := h.NewRand(seed*1000 + uint64(gi))
 				for k := 0; k < nops; k++ {
-					switch pickW(r, "exec", 10, "get", 3, "global", 2, "lookup", 2, "edit", 3, "parse", 1, "newtype", 1) {
+					switch pickW(r, "exec", 10, "get", 3, "global", 2, "lookup", 2, "edit", 3, "parse", 1, "newtype", 1, "keep", 3) {
+					case "keep":
+						// a key and a value kept beyond their iteration, then more ranges over maps of the same Go
+						// type - here and, at the same time, in the other goroutines, each with data of its own:
+						// what was kept belongs to this execution
+						a := 1 + r.Intn(1000)
+						data := raceT2{raceT1: raceT1{A: a, B: "x"}, C: []int{1, 2}, M: map[string]int{fmt.Sprintf("a%d", a): a, fmt.Sprintf("b%d", a): -a, "c": 0}}
+						t, err := set.GetTemplate("/keep.jet")
+						if err != nil {
+							report("concurrent GetTemplate failed: " + err.Error())
+							break
+						}
+						var buf bytes.Buffer
+						want := fmt.Sprintf("%d:[a%d=%d]I(1)1;2;[a%d=%d]", a, a, a, a, a)
+						if err := t.Execute(&buf, nil, data); err != nil || buf.String() != want {
+							report(fmt.Sprintf("Execute of /keep.jet over %v produced %q, %v; want %q", data.M, clipS(buf.String()), err, want))
+						}
 					case "exec":
 						n := names[r.Intn(len(names))]
 						got := renderAlone(set, n)
